@@ -21,17 +21,17 @@ META = {
     "id": "C16",
     "technique": "Coq proof (buzzer device model: induction over call sequences and loop counters; melody tables: reflection over translator-generated tables against a pinned score) + extracted-model correspondence with the emitted C++ executed under the mock Arduino core + property oracle on the firmware trace",
     "level_text": "Theorems C16_* (coq/Props/C16.v) hold for all call sequences and all rational arguments of a Gallina model written line by line from the five buzzer emitter branches; the emitter's melody table and the parser's name set are regenerated from the source on every run and proved equal to a pinned score; the model is run against the real parser+emitter output (compiled, executed on the mock core) on exhaustive boundary grids, exhaustive pairs of boundary calls, seeded random sequences with literal and run-time arguments, bodies repeated over passes of loop() and of a for loop, two interleaved buzzers, and arguments computed from the buzzer's own getters; the thorough tier re-runs a sample under ASan+UBSan.",
-    "level_note": "Trusted: Coq kernel, translator harness/gen/melodies.py, extraction, OCaml driver, mock Arduino core (tone/noTone/delay/Serial/String(float)), g++. C++ float is modelled as exact rational; cases on which float32 and exact arithmetic round an integer output differently are not generated (measured). Five known findings delimit the guard: beep(times<=0) leaves a running tone, negative run-time durations wrap, sweep(steps<=0) plays one tone, frequencies in (0, 0.5) become tone(pin, 0), sweep durations >= 2^24 ms are rounded up by the float conversion.",
+    "level_note": "Trusted: Coq kernel, translator harness/gen/melodies.py, extraction, OCaml driver, mock Arduino core (tone/noTone/delay/Serial/String(float)), g++. C++ float is modelled as exact rational; cases on which float32 and exact arithmetic round an integer output differently are not generated (measured). One known finding delimits the guard: sweep(steps<=0) plays one tone. Four former findings are repaired in the project (kind=fixed in known_findings.d/C16.json: beep(times<=0) left a running tone, negative run-time durations wrapped, frequencies in (0, 0.5) became tone(pin, 0), sweep durations >= 2^24 ms were rounded up by a float conversion); their regions are generated and judged like any other, and their witnesses are replayed first on every run - a witness that fails again is a VIOLATION.",
     "design_ref": "DESIGN.md section 4 C16",
 }
 
-FREQS = [-5, 0, 0.25, 1, 440, 440.4, 440.5, 65535]
-DURS = [0, 1, 50, 2.5]
+FREQS = [-5, 0, 0.25, 0.5, 1, 440, 440.4, 440.5, 65535]
+DURS = [0, 1, 50, 2.5, -1, -2.5]
 TIMES = [-1, 0, 1, 3]
 STEPS = [-1, 0, 1, 2, 5]
 TEMPOS = [-10, 0, 60, 120, 240]
 SEVEN = ["success", "error", "startup", "notify", "alarm", "scale_c", "siren"]
-DEFAULTS = [None, 523.25, 0, -5, 440.4, 0.25]
+DEFAULTS = [None, 523.25, 0, -5, 440.4, 0.25, 0.5]
 DEF = {"on": 100, "off": 100, "times": 1, "steps": 10}
 OFF = 100000
 HEADER = ("from Reduino.Actuators import Buzzer\nfrom Reduino.Communication import SerialMonitor\n"
@@ -92,39 +92,34 @@ def numeric_sites(case, spec, N, tones=None):
     out = []
     tones = [] if tones is None else tones      # the tone() arguments, in order
 
-    def clamp(x):
+    def clamp(x):           # if (x < 0.0f) x = 0.0f
         return zero if x < zero else x
+
+    def clamph(x):          # if (x < 0.5f) x = 0.0f
+        out.append(x < half)
+        return zero if x < half else x
 
     for c in case["calls"]:
         k = c["k"]
         if k == "play":
-            f = clamp(N(qfreq(c["f"])))
+            f = clamph(N(qfreq(c["f"])))
             if f > zero:
                 out.append(math.floor(f + half))
                 tones.append(out[-1])
                 last = f
         elif k == "beep":
-            t = clamp(N(qfreq(c["f"])) if c["f"] is not None else last)
+            t = clamph(N(qfreq(c["f"])) if c["f"] is not None else last)
             n = max(0, trunc(qint(c["times"] or [DEF["times"], False])))
-            out.append(t > zero)
             if t > zero and n > 0:
                 out.append(math.floor(t + half))
                 tones.append(out[-1])
                 last = t
         elif k == "sweep":
             s, e = clamp(N(qfreq(c["s"]))), clamp(N(qfreq(c["e"])))
-            total = math.floor(qdur(c["d"]))
-            if total >= 0:
-                total = int(f32(total))      # static_cast<float>(__redu_total): DBuzzer.f32z in the model
             n = max(1, trunc(qint(c["steps"] or [DEF["steps"], False])))
-            sd = N(total) / N(n)
-            out.append(sd > zero)
-            if sd > zero:
-                out.append(math.floor(sd))
             for i in range(n):
                 p = N(1) if n == 1 else N(i) / (N(n) - N(1))
-                f = clamp(s + (e - s) * p)
-                out.append(f > zero)
+                f = clamph(s + (e - s) * p)
                 if f > zero:
                     out.append(math.floor(f + half))
                     tones.append(out[-1])
@@ -146,28 +141,6 @@ def numeric_sites(case, spec, N, tones=None):
                     tones.append(out[-1])
                     last = f
     return out
-
-
-def tone_zero_free(case, spec):
-    """guard of F-C16-subhalf-frequency-tone-zero, on the inputs alone (half_guard_static of
-    coq/Device/BuzzerSpec.v, theorem C16_no_zero_tone_sequences_partial): default_frequency and every frequency
-    argument are <= 0 or >= 0.5; a sweep has both ends <= 0 or both >= 0.5"""
-    half = Fr(1, 2)
-    aud = lambda q: q <= 0 or q >= half
-    d0 = case["default"]
-    if not aud(Fr(f32(440.0 if d0 is None else d0))):
-        return False
-    for c in case["calls"]:
-        k = c["k"]
-        if k in ("play", "beep") and c.get("f") is not None and not aud(qfreq(c["f"])):
-            return False
-        if k == "sweep":
-            s, e = qfreq(c["s"]), qfreq(c["e"])
-            if not ((s <= 0 and e <= 0) or (s >= half and e >= half)):
-                return False
-        if k == "melody" and not all(aud(fq) for fq, _ in spec[c["name"].lower()][1]):
-            return False
-    return True
 
 
 # ----------------------------------------------------------------------------- cases -> wire
@@ -274,7 +247,7 @@ class Sketch:
         if fr.denominator == 1:
             self._tr.append(int(fr) + OFF)
             return f"({name} - {OFF})"
-        D = next(D for D in (2, 4, 8, 10, 100, 1000) if (fr * D).denominator == 1)
+        D = next(D for D in (2, 4, 8, 16, 10, 100, 1000) if (fr * D).denominator == 1)
         reading = int(fr * D) + OFF
         assert (reading - OFF) / float(D) == v, (v, D)
         self._tr.append(reading)
@@ -468,6 +441,29 @@ def tol(case):
     return 0.006 + 4e-7 * m
 
 
+HALF = Fr(1, 2)
+
+
+def audible(q):
+    """a frequency the firmware sounds: it is rounded to tone(pin, t) with t >= 1"""
+    return q is not None and q >= HALF
+
+
+def drop_redundant_notone(evs, sounding):
+    """the pin events without the noTone() calls issued while the pin is already silent (not observable on the
+    pin; the statement does not count them)"""
+    out = []
+    for e in evs:
+        if e[0] == "NT":
+            if not sounding:
+                continue
+            sounding = False
+        elif e[0] == "T":
+            sounding = True
+        out.append(e)
+    return out
+
+
 def beep_pattern(pin, t, on, off, n):
     out = []
     for i in range(n):
@@ -488,9 +484,6 @@ def oracle(ctx, case, segs, spec, strict_steps=False):
     d0 = case["default"]
     default = f32(440.0 if d0 is None else d0)
     sounding, last_t, last_src = False, None, None
-    # cases that sound a frequency in (0, 0.5) are the known finding F-C16-subhalf-frequency-tone-zero: they are
-    # still generated and compared with the model, but the tone-zero clause is not judged on them
-    guard_tz = tone_zero_free(case, spec)
     last_unknown = False       # set when the statement does not determine the last frequency (non-integer steps)
     fails = []
 
@@ -520,10 +513,13 @@ def oracle(ctx, case, segs, spec, strict_steps=False):
                  (k == "sweep" and qfreq(c["s"]) <= 0 and qfreq(c["e"]) <= 0)
         if nonpos and tones:
             bad("nonpositive-tones", "a frequency <= 0 started a tone", "no tone()", evs, j)
-        if any(t <= 0 for t in tones) and (strict_steps or guard_tz):
+        if any(t <= 0 for t in tones):
             bad("tone-zero", "tone() was called with a frequency <= 0 on the pin", "every tone(pin, f) has f >= 1", evs, j)
         # ---- per-call clauses
-        if k == "play" and qfreq(c["f"]) > 0:
+        # (a frequency in (0, 0.5) would be rounded to tone(pin, 0): the statement neither asks for a tone nor
+        #  forbids silence there - only the universal clauses are judged on such a call; a negative duration
+        #  asks for no delay at all)
+        if k == "play" and audible(qfreq(c["f"])):
             t = rnd(qfreq(c["f"]))
             exp = [("T", pin, t)]
             if c["d"] is not None:
@@ -531,16 +527,22 @@ def oracle(ctx, case, segs, spec, strict_steps=False):
                 exp += ([("D", du)] if du > 0 else []) + [("NT", pin)]
             if evs != exp:
                 bad("play-tone", "play_tone does not sound the given frequency for the given duration", exp, evs, j)
+        if k == "play" and c["d"] is not None and sum(delays) > max(0, math.floor(qdur(c["d"]))):
+            bad("play-duration", "play_tone delays longer than the given duration", f"<= {max(0, math.floor(qdur(c['d'])))}", delays, j)
         if k == "beep":
             n = max(0, trunc(qint(c["times"] or A(DEF["times"]))))
             on = math.floor(qdur(c["on"] or A(DEF["on"])))
             off = math.floor(qdur(c["off"] or A(DEF["off"])))
             target = qfreq(c["f"]) if c["f"] is not None else eff_last()
             # a non-integer `times` is not constrained by the statement: left to the correspondence
-            if target is not None and target > 0 and qint(c["times"] or A(DEF["times"])).denominator == 1:
-                exp = beep_pattern(pin, rnd(target), on, off, n)
-                if evs != exp:
-                    bad("beep-counts", f"beep must sound exactly {n} time(s) with the given on/off gaps", exp, evs, j)
+            if audible(target) and qint(c["times"] or A(DEF["times"])).denominator == 1:
+                # n beeps, then the pin silent: compared up to noTone() calls issued on an already silent pin
+                exp = drop_redundant_notone(beep_pattern(pin, rnd(target), on, off, n) + [("NT", pin)], sounding)
+                got = drop_redundant_notone(evs, sounding)
+                if got != exp:
+                    bad("beep-counts", f"beep must sound exactly {n} time(s) with the given on/off gaps and leave the pin silent", exp, evs, j)
+            if qint(c["times"] or A(DEF["times"])).denominator == 1 and sum(delays) > n * max(0, on) + max(0, n - 1) * max(0, off):
+                bad("beep-duration", "beep delays longer than times*on_ms + (times-1)*off_ms", n * max(0, on) + max(0, n - 1) * max(0, off), delays, j)
         if k == "sweep":
             steps = trunc(qint(c["steps"] or A(DEF["steps"])))
             whole_steps = qint(c["steps"] or A(DEF["steps"])).denominator == 1
@@ -555,18 +557,16 @@ def oracle(ctx, case, segs, spec, strict_steps=False):
                 # steps < 1 is the known finding F-C16-sweep-steps-clamped: count/ends are not judged there
                 if whole_steps and len(tones) > n:
                     bad("sweep-count", "sweep plays more tones than steps", f"<= {n}", tones, j)
-                if e > 0 and (not tones or tones[-1] != rnd(e)):
+                if audible(e) and (not tones or tones[-1] != rnd(e)):
                     bad("sweep-end", "sweep does not end on the end frequency", rnd(e), tones, j)
-                if s > 0 and e > 0:
+                if audible(s) and audible(e):
                     if whole_steps and len(tones) != n:
                         bad("sweep-count", "sweep does not play `steps` tones", n, tones, j)
                     if n > 1 and tones and tones[0] != rnd(s):
                         bad("sweep-start", "sweep does not start on the start frequency", rnd(s), tones, j)
             elif strict_steps and len(tones) != max(0, steps):
                 bad("sweep-count", "sweep does not play `steps` tones", max(0, steps), tones, j)
-            # durations of 2^24 ms or more: F-C16-sweep-float-duration-overshoot (generated, compared with the model,
-            # not judged here)
-            if sum(delays) > max(total, 0) and (strict_steps or total < 2 ** 24):
+            if sum(delays) > max(total, 0):
                 bad("sweep-duration", "sweep delays exceed the given duration", f"<= {total}", delays, j)
         if k == "melody":
             t0, notes = spec[c["name"].lower()]
@@ -588,7 +588,7 @@ def oracle(ctx, case, segs, spec, strict_steps=False):
             elif e[0] == "NT":
                 sounding = False
         # source frequency of the last tone, from the arguments (property-level bookkeeping)
-        if k == "play" and qfreq(c["f"]) > 0:
+        if k == "play" and audible(qfreq(c["f"])):
             last_src, last_unknown = qfreq(c["f"]), False
         elif k == "beep" and tones:
             if c["f"] is not None:
@@ -597,7 +597,7 @@ def oracle(ctx, case, segs, spec, strict_steps=False):
                 last_src = last_src if last_src is not None else Fr(default)
         elif k == "sweep" and tones:
             e = max(Fr(0), qfreq(c["e"]))
-            if e > 0:
+            if audible(e):
                 last_src, last_unknown = e, False
             else:
                 # the sweep fades out before reaching a non-positive end: which interpolated tone was the
@@ -636,24 +636,10 @@ def oracle(ctx, case, segs, spec, strict_steps=False):
 
 # ----------------------------------------------------------------------------- generators
 def in_guard(case):
-    """beep(times < 1) while a tone is left running is the known finding F-C16-beep-zero-keeps-tone;
-    negative durations are F-C16-negative-runtime-duration / undefined behaviour."""
-    sounding = False
-    for c in case["calls"]:
-        k = c["k"]
-        for key in ("d", "on", "off"):
-            if c.get(key) is not None and qdur(c[key]) < 0:
-                return False
-        if k == "play":
-            sounding = c["d"] is None and qfreq(c["f"]) > 0
-        elif k == "beep":
-            if max(0, trunc(qint(c["times"] or A(DEF["times"])))) < 1:
-                if sounding:
-                    return False
-            else:
-                sounding = False
-        else:
-            sounding = False
+    """No call sequence is excluded any more: beep(times < 1) after an untimed play_tone and negative durations
+    (the former findings F-C16-beep-zero-keeps-tone, F-C16-negative-runtime-duration) are repaired, so they are
+    generated and judged.  (The one remaining finding, F-C16-sweep-steps-clamped, is a clause the oracle does not
+    judge for steps < 1; those calls are generated and compared with the model.)"""
     return True
 
 
@@ -698,11 +684,12 @@ def grid_ops(thorough):
 
 PAIR_ALPHABET = [
     play(440), play(-5), play(0), play(440.5), play(65535), play(440, 50), play(0, 1), play(440.4, 2.5), play(1, 0),
+    play(0.25), play(0.5, 1), play(440, -1),
     stop(),
     beep(None, 1, 1, 3), beep(440.4, 50, 0, 1), beep(-5, 1, 1, 3), beep(None, None, None, 0), beep(440, 0, 50, -1),
-    beep(65535, 2.5, 2.5, None),
+    beep(65535, 2.5, 2.5, None), beep(0.25, 1, 1, 2), beep(None, -1, -2.5, 2),
     sweep(440, 65535, 50, 5), sweep(440.5, 1, 1, 2), sweep(-5, 0, 50, 1), sweep(1, 440, 2.5, 0), sweep(0, 440, 0, -1),
-    sweep(440.4, 440.5, 50, None),
+    sweep(440.4, 440.5, 50, None), sweep(440, 880, -1, 2), sweep(1, 0, 50, 5), sweep(440, 880, 16777219, 1),
     melody("notify"), melody("siren", -10), melody("error", 60), melody("scale_c", 0), melody("success", 240),
     melody("alarm", 120), melody("startup"),
 ]
@@ -710,8 +697,8 @@ PAIR_ALPHABET = [
 
 def random_call(rng):
     k = rng.choice(["play", "play", "stop", "beep", "beep", "sweep", "sweep", "melody"])
-    fq = lambda: rng.choice(FREQS + [rng.randrange(-40, 8000) / 8, rng.randrange(1, 3000), 261.63, 783.99])
-    du = lambda: rng.choice(DURS + [rng.randrange(0, 400) / 2, 7, 100] + ([16777215, 9999999, 12345678.5, 16777217, 16777219, 16777221, 33554435, 33554434, 50000001, 4294967295]
+    fq = lambda: rng.choice(FREQS + [rng.randrange(-40, 8000) / 8, rng.randrange(-8, 24) / 16, rng.randrange(1, 3000), 261.63, 783.99])
+    du = lambda: rng.choice(DURS + [rng.randrange(-60, 400) / 2, 7, 100, -7] + ([16777215, 9999999, 12345678.5, 16777217, 16777219, 16777221, 33554435, 33554434, 50000001, 4294967295]
                                  if rng.random() < 0.15 else []))
     if k == "play":
         c = play(fq(), du() if rng.random() < 0.6 else None)
@@ -780,6 +767,22 @@ def build_cases(ctx):
         for n in (1, 2, 3):
             rt = (i + n + ctx.seed) % 2 == 1 and total < 2 ** 31 - 2 * OFF
             add("bigdur", [route(sweep(440, 880, total, n), rt), route(sweep(-5, 440.5, total, None), False)], None, style=i + n)
+    # (8) the regions of the repaired findings, densely: an untimed tone, then a beep whose count is < 1 (literal and
+    #     run-time); negative durations at every duration site; frequencies around 1/2
+    for i, t in enumerate([0, -1, -3, 0.5, -0.5, 0.75]):
+        for j, first in enumerate([play(440), play(440.5), play(0.25), play(65535)]):
+            for rt in (False, True):
+                add("beepzero", [route(first, rt and j % 2 == 0), route(beep(None if i % 2 else 660, 5, 5, t), rt), play(330),
+                                 route(beep(None, None, None, t), not rt)], None, style=i + j)
+    for i, d in enumerate([-1, -2.5, -50, -0.5, -100000]):
+        for rt in (False, True):
+            add("negdur", [route(play(440, d), rt), route(beep(660, d, 5, 2), rt), route(beep(660, 5, d, 3), rt),
+                           route(sweep(440, 880, d, 3), rt), route(play(-5, d), rt)], None, style=i)
+    for i, f in enumerate([0.25, 0.375, 0.4375, 0.5, 0.5625, 0.75, 0.125, 0.0625]):
+        for rt in (False, True):
+            add("subhalf", [route(play(f), rt), route(play(f, 5), rt), route(beep(f, 1, 1, 2), rt), route(beep(None, 1, 1, 1), rt),
+                            route(sweep(f, 0, 10, 4), rt), route(sweep(0, f, 10, 3), rt), route(sweep(f, 2, 10, 5), rt)],
+                DEFAULTS[i % len(DEFAULTS)], style=i)
     # (6) state feedback: frequency-type arguments written as expressions over the buzzer's own getters
     #     (evaluated by the firmware when the call is made); values resolved by resolve_feedback
     seeds = [play(440), play(440.5), play(220.25), play(65535), play(1), play(440, 50), beep(880, 1, 1, 2),
@@ -993,38 +996,56 @@ def check_names(ctx, spec, impl_tables):
 
 
 def listed_findings(ctx):
-    """known_findings.json entries for C16, plus this work package's own file (same entries before the merge)"""
+    """the entries of this work package's own file known_findings.d/C16.json, plus the entries of the merged
+    known_findings.json for C16 that it does not list (the package's file wins: it is the source of the merge)"""
     import json
-    items = {f["id"]: f for f in ctx.findings}
+    items = {}
     p = C.VERIF / "known_findings.d" / "C16.json"
     if p.exists():
         for f in json.loads(p.read_text()):
-            items.setdefault(f["id"], f)
+            items[f["id"]] = f
+    for f in ctx.findings:
+        items.setdefault(f["id"], f)
     return list(items.values())
 
 
-def replay_findings(ctx, spec):
-    witnesses = []
-    for f in listed_findings(ctx):
-        if f.get("kind") == "fixed":
-            continue
-        witnesses.append((f, {"kind": "finding", "pin": 8, "default": f["witness"].get("default"),
-                              "calls": f["witness"]["calls"], "style": 0}))
+def witness_case(f):
+    return {"kind": "finding", "pin": 8, "default": f["witness"].get("default"), "calls": f["witness"]["calls"], "style": 0}
+
+
+def replay_findings(ctx, spec, fixed):
+    """fixed=False: every listed finding (kind "finding") is replayed on the real firmware; still failing ->
+    KNOWN-FINDING line.  fixed=True: every repaired finding (kind "fixed") is replayed the same way; a fixed entry
+    suppresses nothing - if its witness fails again that is a property failure (VIOLATION, the witness is the
+    replay)."""
+    witnesses = [(f, witness_case(f)) for f in listed_findings(ctx) if (f.get("kind") == "fixed") == fixed]
     if not witnesses:
-        return
+        return 0
     fwres, _ = run_firmware([w for _, w in witnesses], 10 ** 6)
+    n = 0
     for i, (f, case) in enumerate(witnesses):
         segs = fwres.get(i)
-        if isinstance(segs, tuple):
+        if isinstance(segs, tuple) or segs is None:
+            if fixed:
+                ctx.fail(f"{f.get('fixed', 'fixed: ' + f['id'])} - the witness cannot be transpiled/compiled/run any more", case,
+                         "a trace", segs, key=f["id"])
             continue
         probe = C.Ctx("C16", ctx.tier, ctx.seed)
         probe.findings = []
         try:
             oracle(probe, case, segs, spec, strict_steps=True)
-        except Exception:
+        except Exception as exc:
+            if fixed:
+                ctx.fail(f"{f.get('fixed', 'fixed: ' + f['id'])} - the oracle cannot read the witness trace ({type(exc).__name__})",
+                         case, "a well-formed trace", segs, key=f["id"])
             continue
-        if probe.failures:
+        n += 1
+        if probe.failures and fixed:
+            g = probe.failures[0]
+            ctx.fail(f"{f.get('fixed', 'fixed: ' + f['id'])} - HAS RETURNED: {g['what']}", case, g["expected"], g["observed"], key=f["id"])
+        elif probe.failures:
             ctx.known(f"{f['id']}: {f['what']}")
+    return n
 
 
 def shrink_failures(ctx, spec):
@@ -1075,12 +1096,13 @@ def run(ctx: C.Ctx):
         ctx.coverage.update({"evaluations": 0, "rule": "model executable unavailable", "trusted_base": C.COMMON_TRUSTED})
         return
     spec = load_spec(ctx)
+    # repaired findings first: a witness that fails again is reported before anything else
+    n_fixed = replay_findings(ctx, spec, fixed=True)
     n_names, n_acc = check_names(ctx, spec, impl_tables)
 
     cases_all, n_feedback_dropped = resolve_feedback(ctx, build_cases(ctx))
     n_out_guard = sum(1 for c in cases_all if not in_guard(c))
     cases = [c for c in cases_all if in_guard(c)]
-    n_tone_zero = sum(1 for c in cases if not tone_zero_free(c, spec))
     # float32 vs exact-rational: keep only cases on which every integer the firmware derives agrees
     kept, n_inexact = [], 0
     for c in cases:
@@ -1144,22 +1166,22 @@ def run(ctx: C.Ctx):
                 elif a != b:
                     ctx.disagree("sanitizer build produces a different trace than the g++ build", cases[i], a, b)
     shrink_failures(ctx, spec)
-    replay_findings(ctx, spec)
+    replay_findings(ctx, spec, fixed=False)
 
     distinct = len({repr((c["default"], c["calls"])) for c in cases if any(x["k"] != "stop" for x in c["calls"])})
     ctx.coverage.update({
         "evaluations": len(cases) + n_names,
         "distinct_nontrivial": distinct,
-        "rule": "call sequences on one buzzer: (1) every point of the boundary grids (play_tone f x d, beep f x (on,off) x times, sweep s x e x (d,steps), melody x tempo; quick tier cycles the inner product, thorough takes it in full) chained four per case, literal and run-time (analog_read-routed) arguments alternating; (2) all ordered pairs over a 29-call boundary alphabet in four literal/run-time routings; (3) seeded random sequences of length <= 8 with per-argument routing, omitted defaults, keyword/positional spellings and case variants of melody names; (4) a body of 1-4 calls executed for 2-3 passes, inside `while True:` (loop(), state carried by the globals) inside `for k in range(P):` in setup(), or inside a user-defined function called P times; (5) two buzzers on different pins with randomly interleaved calls (each compared with its own model run; events on a foreign pin are failures). (6) state feedback: a seed call, then 1-3 calls whose frequency / start / end / tempo argument is `get_last_frequency() * a + b` or `get_frequency() * a + b` of the same buzzer (the model evaluates the expression in its own state; the oracle takes the getter value the firmware printed just before the call). Thorough tier: a seventh of the cases re-run under clang++ ASan+UBSan. Getters are printed before the first and after every call. Non-trivial = contains a call other than stop; distinct by (default, calls).",
+        "rule": "call sequences on one buzzer: (1) every point of the boundary grids (play_tone f x d, beep f x (on,off) x times, sweep s x e x (d,steps), melody x tempo; quick tier cycles the inner product, thorough takes it in full) chained four per case, literal and run-time (analog_read-routed) arguments alternating; (2) all ordered pairs over a 29-call boundary alphabet in four literal/run-time routings; (3) seeded random sequences of length <= 8 with per-argument routing, omitted defaults, keyword/positional spellings and case variants of melody names; (4) a body of 1-4 calls executed for 2-3 passes, inside `while True:` (loop(), state carried by the globals) inside `for k in range(P):` in setup(), or inside a user-defined function called P times; (5) two buzzers on different pins with randomly interleaved calls (each compared with its own model run; events on a foreign pin are failures). (6) state feedback: a seed call, then 1-3 calls whose frequency / start / end / tempo argument is `get_last_frequency() * a + b` or `get_frequency() * a + b` of the same buzzer (the model evaluates the expression in its own state; the oracle takes the getter value the firmware printed just before the call). (7) sweep durations around and above 2^24 ms; (8) the regions of the repaired findings: untimed tone then beep with count < 1, negative durations at every duration site, frequencies around 1/2. The witnesses of the repaired findings (known_findings.d/C16.json, kind fixed) are replayed before everything else. Thorough tier: a seventh of the cases re-run under clang++ ASan+UBSan. Getters are printed before the first and after every call. Non-trivial = contains a call other than stop; distinct by (default, calls).",
         "samples": [cases[0], cases[len(cases) // 2], cases[-1]],
         "distribution": {**dist, "cases": len(cases), "calls_compared": n_calls, "sketches": n_sketches,
-                         "cases_clean": n_ok, "cases_rerun_under_sanitizers": n_san, "outside_guard_not_generated": n_out_guard, "feedback_cases_not_exact_dropped": n_feedback_dropped, "tone_zero_cases_compared_not_judged": n_tone_zero,
+                         "cases_clean": n_ok, "cases_rerun_under_sanitizers": n_san, "outside_guard_not_generated": n_out_guard, "feedback_cases_not_exact_dropped": n_feedback_dropped, "fixed_witnesses_replayed": n_fixed,
                          "float32_vs_exact_dropped": n_inexact, "melody_name_candidates": n_names, "melody_names_accepted": n_acc},
         "exhaustive": False,
-        "guard": "the tone(pin, f >= 1) clause is judged only on cases without a sounded frequency in (0, 0.5) - arguments, default_frequency, interpolated sweep frequencies (F-C16-subhalf-frequency-tone-zero: rounded to tone(pin, 0); the guard is half_guard_static of the Coq development, evaluated on the inputs: default and arguments <= 0 or >= 0.5, sweeps with both ends <= 0 or both >= 0.5; cases outside it are still generated and compared with the model); durations/on_ms/off_ms >= 0 (negative: F-C16-negative-runtime-duration, float->unsigned UB); the sweep duration clause is judged only for durations below 2^24 ms (F-C16-sweep-float-duration-overshoot: the duration is rounded to a float first; larger durations are still generated and compared with the model, which contains that rounding); sweep tone count / first / last judged only for steps >= 1 (F-C16-sweep-steps-clamped; the calls are still generated and compared with the model); no beep with trunc(times) < 1 while a tone is left running (F-C16-beep-zero-keeps-tone); integer outputs on which float32 and exact-rational arithmetic differ are not generated (count in distribution.float32_vs_exact_dropped)",
-        "unmodelled": ["C++ float rounding (modelled as exact rationals, except the unsigned long -> float conversion of the sweep duration, DBuzzer.f32z; measured by the float32 filter and the correspondence)",
+        "guard": "sweep tone count / first / last are judged only for steps >= 1 (F-C16-sweep-steps-clamped, the one remaining finding; the calls are still generated and compared with the model); integer outputs on which float32 and exact-rational arithmetic differ are not generated (count in distribution.float32_vs_exact_dropped).  Nothing else is excluded: beep(times < 1) after an untimed tone, negative durations (literal and run-time), frequencies in (0, 0.5) and sweep durations >= 2^24 ms - the regions of the four repaired findings - are generated (kinds beepzero, negdur, subhalf, bigdur, plus the grids, pairs and random sequences) and judged by every clause",
+        "unmodelled": ["C++ float rounding (modelled as exact rationals; measured by the float32 filter and the correspondence)",
                        "unsigned int / int / unsigned long overflow (tone frequency >= 2^16 on AVR, counts >= 2^15)",
-                       "static_cast<unsigned long> of a negative value (wrap-around for int expressions, undefined for float expressions; [neg] oracle in the model)",
+                       "static_cast<unsigned long> of a duration above ULONG_MAX (durations are clamped at zero from below only)",
                        "non-ASCII melody names (str.lower of U+212A)", "IEEE specials", "several buzzers sharing one pin",
                        "what the real Arduino core does with tone(pin, 0) (the mock only logs it)",
                        "calls on a receiver that was never declared as Buzzer; buzzer calls under if/try/with (statement layer: C01/C05/C07; `for`, `while True:` and parameterless user functions are exercised)",
